@@ -131,6 +131,9 @@ yaml.add_multi_representer(np.floating, numpy_float_representer)
 yaml.add_multi_representer(np.integer, numpy_int_representer)
 yaml.add_multi_representer(np.complexfloating, numpy_complex_representer)
 yaml.add_representer(np.bool_, numpy_bool_representer)
+def numpy_str_representer(dumper, data):
+    return dumper.represent_str(str(data))
+yaml.add_representer(np.str_, numpy_str_representer)
 
 
 # numpy ufuncs can no longer be pickled as of numpy 1.20
